@@ -31,6 +31,11 @@ def T(a):
             big = torch.zeros(a.shape[:-1] + (2 * a.shape[-1],), dtype=torch.float64)
             big[..., ::2] = torch.tensor(a, dtype=torch.float64)
             return big[..., ::2]
+        if r < 0.24 and a.shape[0] * a.shape[1] > 1:
+            # stored as (C, N, ...), seen as (N, C, ...)
+            return torch.tensor(np.ascontiguousarray(np.swapaxes(a, 0, 1)), dtype=torch.float64).transpose(0, 1)
+        if r < 0.28 and a.ndim == 4:
+            return torch.tensor(a, dtype=torch.float64).contiguous(memory_format=torch.channels_last)
     return torch.tensor(a, dtype=torch.float64)
 
 
